@@ -409,6 +409,11 @@ func (s *handler) handle(ctx context.Context, req request, w func(func(io.Writer
 			}
 
 			callParams[i+1+handler.hasCtx] = reflect.ValueOf(rp.Interface())
+			if !callParams[i+1+handler.hasCtx].IsValid() {
+				// nil interface value (e.g. JSON null for an interface{} param);
+				// reflect.ValueOf(nil) is the invalid Value, which can't be passed to Call
+				callParams[i+1+handler.hasCtx] = reflect.Zero(typ)
+			}
 		}
 	}
 
